@@ -29,6 +29,7 @@
 
 void w_set_output(FILE *f);
 long w_violations(void);
+long w_stat(int which);
 const char *w_violation_text(void);
 void w_reset(void);
 void w_buf(int is_shared, size_t bsz, size_t usz);
